@@ -81,6 +81,7 @@ func runC02(c *Ctx) {
 	ruleDataSource(c) // a second buffer between the connection and the automaton over-reads past the end marker
 	ruleDrains(c)
 	ruleDrainFailureCloses(c)
+	ruleLineLimitCounting(c) // the limiter's refusal must stay in force (count past the limit): a drain that resumes after a refused segment reads a stream with a hole in it
 }
 
 // ruleDrainFailureCloses (C02, C04, C05): a discard that stops before the end of the message / chunk (read timeout,
